@@ -122,13 +122,28 @@ theorem fixOne_pseudo_numeric (ss : List Stmt) (i : Nat) {s : Stmt} (hk : s.oper
   · cases hx : s.operand.value <;> rw [hx] at hv <;> first | rfl | cases hv
   · cases hx : s.operand.value <;> rw [hx] at hv <;> first | rfl | cases hv
 
+set_option maxRecDepth 100000 in
+theorem table_org_skipped : ∀ r ∈ Gen.instructions, r.mnemonic = "ORG" → fitSkipped r = true := by decide
+
+/-- an ORG statement with a numeric operand is left alone by `fix_addresses; fit_operand_width` -/
+theorem fixFit_org (ss : List Stmt) (i : Nat) {s : Stmt} (hrow : s.row ∈ Gen.instructions)
+    (hm : s.row.mnemonic = "ORG") (hk : s.operand.kind = .pseudo)
+    (hv : s.operand.value.isNumeric = true) (hn : s.pkg.needsRes = false) : fixFit ss i s = .ok s := by
+  unfold fixFit
+  rw [fixOne_pseudo_numeric ss i hk hv hn]
+  dsimp only
+  unfold fitWidth
+  have := table_org_skipped _ hrow hm
+  unfold fitSkipped at this
+  rw [if_pos this]
+
 /-- the ORG bound used at value level -/
 def OrgOk (D : Nat) (n : Nat) : Prop := 256 ≤ n ∧ n + D < 65536
 
 /-- C18-R1 for parsed programs, value level.  With every ORG at `$100` or above and `n + D < $10000`:
 the symbol tables before address assignment coincide; every address VALUE moves by `D` keeping its
-rendering; statement by statement the operand field is identical (`Unmoved`) or moved by `D` (`Moved`),
-and so are the emitted bytes; in the final symbol table labels move by `D` and EQU values stay. -/
+rendering; statement by statement the operand field (after `fix_addresses; fit_operand_width`) is identical
+(`Unmoved`) or moved by `D` (`Moved`: a label reference in a 16-bit field), and so are the emitted bytes; in the final symbol table labels move by `D` and EQU values stay. -/
 theorem C18_R1_parsed_code {fs : Files} {la lb : List Str} {pa pb : List Stmt} {D : Nat} {A B : Assembly}
     (hpa : parseLines la = .ok pa) (hpb : parseLines lb = .ok pb) (hrel : PW (OrgRel D (OrgOk D)) pa pb)
     (hinc : ∀ s ∈ pa, s.row.isInclude = false)
@@ -201,8 +216,8 @@ theorem C18_R1_parsed_code {fs : Files} {la lb : List Str} {pa pb : List Stmt} {
     rw [ht'] at hu'; cases hu'
     obtain ⟨s3, hs3, ⟨v, hv⟩, hkeep⟩ := kA.get' hs4
     obtain ⟨s3', hs3', ⟨v', hv'⟩, hkeep'⟩ := kB.get' hs4'
-    obtain ⟨w, hw⟩ := fixOne_keeps hfu
-    obtain ⟨w', hw'⟩ := fixOne_keeps hfu'
+    obtain ⟨w, hw⟩ := fixFit_keeps hfu
+    obtain ⟨w', hw'⟩ := fixFit_keeps hfu'
     have hT : AddrShift D t t' := by rw [hw, hw']; exact ⟨hsh.1, hsh.2⟩
     refine ⟨hT, ?_⟩
     rcases h3.2 i s3 s3' hs3 hs3' with ⟨rfl, _, _⟩ | ⟨hin, hm, hn, hk, hk', hnum, hnum', n, _, ha, ha'⟩
@@ -212,7 +227,7 @@ theorem C18_R1_parsed_code {fs : Files} {la lb : List Str} {pa pb : List Stmt} {
         obtain ⟨e, hb⟩ := reloc_bytes_unmoved' hshiftI he hc hfu hfu'
         exact ⟨by rw [e]; rfl, hb⟩
       · intro hc
-        have hmv := reloc_fixOne_moved' hshift he hc (i := i)
+        have hmv := reloc_fixFit_moved' hshift he hc (i := i)
         rw [hfu, hfu'] at hmv
         simp only [Outcome.map_ok, Outcome.ok.injEq] at hmv
         refine ⟨by rw [hmv]; rfl, ?_⟩
@@ -222,8 +237,14 @@ theorem C18_R1_parsed_code {fs : Files} {la lb : List Str} {pa pb : List Stmt} {
       have e4 : s4 = s3 := hkeep (by simp [Stmt.preset, ha, Value.isNone])
       have e4' : s4' = s3' := hkeep' (by simp [Stmt.preset, ha', Value.isNone])
       subst e4 e4'
-      rw [fixOne_pseudo_numeric _ _ hk hnum hn] at hfu
-      rw [fixOne_pseudo_numeric _ _ hk' hnum' (by rw [hin]; simpa using hn)] at hfu'
+      have hrow : s4.row ∈ Gen.instructions := by
+        have := stA.row_mem ht
+        rw [hw] at this; exact this
+      have hrow' : s4'.row ∈ Gen.instructions := by
+        have := stB.row_mem ht'
+        rw [hw'] at this; exact this
+      rw [fixFit_org _ _ hrow hm hk hnum hn] at hfu
+      rw [fixFit_org _ _ hrow' (by rw [hin]; simpa using hm) hk' hnum' (by rw [hin]; simpa using hn)] at hfu'
       cases hfu; cases hfu'
       have eadd : t'.pkg.additional = s4.pkg.additional := by rw [hin]; simp
       constructor
@@ -232,7 +253,7 @@ theorem C18_R1_parsed_code {fs : Files} {la lb : List Str} {pa pb : List Stmt} {
         unfold stmtBytes
         rw [eadd, show t'.pkg.opCode = s4.pkg.opCode by rw [hin]; simp,
           show t'.pkg.postByte = s4.pkg.postByte by rw [hin]; simp]
-      · rintro ⟨_, _, hv⟩
+      · rintro ⟨_, _, hv, _⟩
         exfalso
         rcases hv with ⟨tg, m, hv⟩ | ⟨l, r, op, m, k, hh, mm, nn, hv, _⟩ <;> rw [hv] at hnum <;> cases hnum
   have hfinal : PW (AddrShift D) A.stmts B.stmts := by
